@@ -474,7 +474,7 @@ def correspondence(ctx, model_ok, tmp):
                     ctx.evaluations += 1
             # ---- the registry's own tables (read from the SQLite file): dataset rows, tag rows and collection rows are exactly what
             # the history says; the per-collection summaries (which queries use to skip collections) cover every membership
-            if full_probe:
+            if (step % 3 == 2) or step == n_steps - 1:
                 from vlib import regtables
 
                 snap = regtables.snapshot(os.path.join(tmp, "r"))
